@@ -86,6 +86,8 @@ func execOp(line string) {
 			return "ok:" + strings.TrimPrefix(hx(w.calls[0]), "-")
 		}))
 
+	case "duse":
+		emit(line, implDuse(t))
 	case "defmsg":
 		emit(line, safely(func() string {
 			id := uint32(atoiU(t[2]))
@@ -347,6 +349,16 @@ func initErrKind(err error) string {
 		return "enum-type"
 	case strings.HasPrefix(s, "string has invalid length"):
 		return "str-len"
+	case strings.HasSuffix(s, "is not exported"):
+		return "unexported"
+	case strings.HasPrefix(s, "invalid array length"):
+		return "arr-len"
+	case strings.HasPrefix(s, "arrays of strings"):
+		return "str-array"
+	case strings.HasPrefix(s, "extension fields must"):
+		return "ext-order"
+	case strings.HasPrefix(s, "message is too big"):
+		return "too-big"
 	}
 	return "other"
 }
